@@ -41,12 +41,16 @@ pub enum Act {
     Eof,
     /// transport write accepts k of the offered bytes
     Accept(usize),
-    /// async only: the write half is not ready
+    /// the write half is not ready (async: Pending; blocking: ErrorKind::Interrupted)
     WritePending,
     /// async only: the read half is not ready (one extra poll)
     ReadPending,
     /// async only: the caller drops the pending read() future and calls read() again
     Cancel,
+    /// async only: 30 s pass on the (paused) clock while the connection is suspended; never more
+    /// than 60 s in a row without a transport event, so that the documented 90 s read timeout
+    /// cannot fire and the expected effect is: none
+    Tick,
 }
 
 impl Act {
@@ -54,7 +58,7 @@ impl Act {
         match self {
             Act::Deliver(_) | Act::ReadFail(_) | Act::Eof | Act::ReadPending => Some(Side::Read),
             Act::Accept(_) | Act::WritePending => Some(Side::Write),
-            Act::Cancel => None,
+            Act::Cancel | Act::Tick => None,
         }
     }
 }
@@ -189,6 +193,10 @@ impl Write for World {
                 w.tainted = true;
                 Err(io::Error::new(io::ErrorKind::Other, SENTINEL))
             },
+            // "not ready" for a blocking transport is EINTR: std's contract says retry
+            Some(Err(e)) if e.to_string() == "verif: pending" => {
+                Err(io::Error::new(io::ErrorKind::Interrupted, "verif: interrupted, retry"))
+            },
             Some(r) => r,
         }
     }
@@ -253,6 +261,8 @@ pub struct RunResult {
     pub pos: usize,
     pub finished: bool,
     pub calls_started: usize,
+    /// Tick answers consumed by the driver call in progress
+    pub ticks_in_call: u32,
     pub read_caps: Vec<usize>,
     pub delivered: Vec<usize>,
     /// per completed call: true = read, false = write
@@ -284,6 +294,8 @@ fn render_unit(r: &Result<(), insim::Error>) -> String {
         Err(e) => format!("Err({e:?})"),
     }
 }
+
+pub const TICK_SECS: u64 = 30;
 
 thread_local! {
     static RT: tokio::runtime::Runtime = tokio::runtime::Builder::new_current_thread()
@@ -336,7 +348,7 @@ fn run_blocking(inst: &Instance, hist: &[Act], inner: Arc<Mutex<Inner>>) -> RunR
     {
         let mut w = inner.lock().unwrap();
         for a in hist {
-            if matches!(a, Act::Cancel | Act::ReadPending | Act::WritePending) {
+            if matches!(a, Act::Cancel | Act::ReadPending | Act::Tick) {
                 out.harness_error = Some(format!("{a:?} is not a blocking answer"));
                 return out;
             }
@@ -427,6 +439,7 @@ fn run_tokio(inst: &Instance, hist: &[Act], inner: Arc<Mutex<Inner>>) -> RunResu
             w.asked = None;
         }
         out.calls_started += 1;
+        out.ticks_in_call = 0;
         // the boxed future borrows `framed`; it is dropped before the buffer is inspected
         enum Done {
             Result(String),
@@ -455,6 +468,13 @@ fn run_tokio(inst: &Instance, hist: &[Act], inner: Arc<Mutex<Inner>>) -> RunResu
                             Some(Act::Cancel) => {
                                 next += 1;
                                 break Done::Cancelled;
+                            },
+                            Some(Act::Tick) => {
+                                next += 1;
+                                out.ticks_in_call += 1;
+                                RT.with(|rt| rt.block_on(tokio::time::advance(std::time::Duration::from_secs(TICK_SECS))));
+                                // poll again: the transport is asked once more unless a timer fired
+                                inner.lock().unwrap().asked = None;
                             },
                             Some(a) => {
                                 if a.side() != asked {
